@@ -37,9 +37,31 @@ type recStorage struct {
 	data   []byte
 	writes [][]byte
 	loads  int
+	calls  int
+	// hook, if set, runs INSIDE every LoadSession / StoreSession call, before the call takes
+	// effect and without any storage lock held (the storage is a boundary fake: whatever
+	// happens elsewhere in the program during a slow storage call can be put here).
+	hook func(kind string, idx int)
+}
+
+func (s *recStorage) enter(kind string) {
+	s.mu.Lock()
+	idx, h := s.calls, s.hook
+	s.calls++
+	s.mu.Unlock()
+	if h != nil {
+		h(kind, idx)
+	}
+}
+
+func (s *recStorage) setHook(h func(kind string, idx int)) {
+	s.mu.Lock()
+	s.hook, s.calls = h, 0
+	s.mu.Unlock()
 }
 
 func (s *recStorage) LoadSession(context.Context) ([]byte, error) {
+	s.enter("load")
 	s.mu.Lock()
 	defer s.mu.Unlock()
 	s.loads++
@@ -50,6 +72,7 @@ func (s *recStorage) LoadSession(context.Context) ([]byte, error) {
 }
 
 func (s *recStorage) StoreSession(_ context.Context, data []byte) error {
+	s.enter("store")
 	s.mu.Lock()
 	defer s.mu.Unlock()
 	s.data = append([]byte(nil), data...)
@@ -399,6 +422,253 @@ func c30Concurrent(c *mon.Ctx) {
 		c.Distinct(fmt.Sprintf("concurrent/pfs=%v/primary=%d", pfs, primary))
 	}
 	c.Set("concurrent_histories", n)
+}
+
+// ---- scheduled arm: things that happen while a storage call is in progress ----
+
+type schedAction struct {
+	Kind string `json:"action"` // migrate | conn-dead | other | cdn | primary
+	At   int    `json:"at_storage_call"`
+	Go   bool   `json:"from_second_goroutine"`
+}
+
+type schedNote struct {
+	note
+	AsPrimary bool   `json:"delivered_as_primary"`
+	Inside    string `json:"inside_storage_call,omitempty"`
+	eff, temp crypto.AuthKey
+	matched   bool
+}
+
+// primaryConnDeader is the optional hook H7b (VerifPrimaryConnDead).
+type primaryConnDeader interface{ VerifPrimaryConnDead(err error) }
+
+// c30RunScheduled delivers the main sequence P O P C P (P = notification of the current primary DC,
+// O = other DC, C = CDN handler) and executes the scheduled actions inside the storage calls these
+// make. Oracle (literal statement): the storage writes are exactly the triples of the notifications
+// that were delivered for the primary DC, one write each; nothing else is ever persisted.
+func c30RunScheduled(c *mon.Ctx, r *rand.Rand, pfs, restored bool, acts []schedAction, label string) (hookMissing bool) {
+	ctx := context.Background()
+	st := &recStorage{}
+	primary := 1 + r.IntN(5)
+	var seed *schedNote
+	if restored {
+		k := randAuthKey(r)
+		d := session.Data{DC: 1 + r.IntN(5), AuthKey: k.Value[:], AuthKeyID: k.ID[:], Salt: r.Int64()}
+		l := session.Loader{Storage: st}
+		if err := l.Save(ctx, &d); err != nil {
+			c.Inconclusive("cannot seed storage: " + err.Error())
+			return
+		}
+		primary = d.DC
+		seed = &schedNote{note: note{Kind: "restore", DC: d.DC, Key: hex.EncodeToString(k.ID[:]), Salt: d.Salt}}
+	}
+	cl := newOfflineClient(primary, st, pfs, newDialRecorder())
+	cl.VerifInit(ctx)
+	if restored {
+		if err := cl.VerifRestoreConnection(ctx); err != nil {
+			c.Violate("scheduled|valid-session-refused", map[string]any{"err": err.Error()})
+			return
+		}
+	}
+	// All of the following runs either on this goroutine or on a goroutine this one waits for.
+	var (
+		notes   []*schedNote
+		errs    []string
+		inside  string
+		fired   = map[int]bool{}
+		deliver func(kind string)
+	)
+	if seed != nil {
+		notes = append(notes, seed)
+	}
+	deliver = func(kind string) {
+		sess := mtproto.Session{ID: r.Int64(), Key: randAuthKey(r), Salt: r.Int64()}
+		if pfs && kind != "cdn" {
+			sess.PermKey = randAuthKey(r)
+		}
+		n := &schedNote{Inside: inside, eff: sess.Key}
+		n.Key, n.Salt = hex.EncodeToString(sess.Key.ID[:]), sess.Salt
+		if !sess.PermKey.Zero() {
+			n.eff, n.temp, n.Perm = sess.PermKey, sess.Key, hex.EncodeToString(sess.PermKey.ID[:])
+		}
+		var err error
+		switch kind {
+		case "primary":
+			n.Kind, n.DC, n.AsPrimary = "primary", primary, true
+			notes = append(notes, n)
+			err = cl.VerifOnSession(tg.Config{ThisDC: primary}, sess)
+		case "other":
+			d := 1 + r.IntN(5)
+			for d == primary {
+				d = 1 + r.IntN(5)
+			}
+			n.Kind, n.DC = "other", d
+			notes = append(notes, n)
+			err = cl.VerifOnSession(tg.Config{ThisDC: d}, sess)
+		case "cdn":
+			n.Kind, n.DC = "cdn", []int{primary, 203}[r.IntN(2)]
+			notes = append(notes, n)
+			err = cl.VerifOnCDNSession(tg.Config{ThisDC: n.DC}, sess)
+		case "migrate":
+			d := 1 + r.IntN(5)
+			for d == primary {
+				d = 1 + r.IntN(5)
+			}
+			notes = append(notes, &schedNote{note: note{Kind: "migrate", DC: d}, Inside: inside})
+			cl.VerifMigrate(d)
+			primary = d
+		case "conn-dead":
+			h, ok := any(cl).(primaryConnDeader)
+			if !ok {
+				hookMissing = true
+				return
+			}
+			notes = append(notes, &schedNote{note: note{Kind: "conn-dead", DC: primary}, Inside: inside})
+			h.VerifPrimaryConnDead(fmt.Errorf("primary: %w", mtproto.ErrPFSDropKeysRequired))
+		}
+		if err != nil {
+			errs = append(errs, kind+": "+err.Error())
+		}
+	}
+	st.setHook(func(kind string, idx int) {
+		for i, a := range acts {
+			if a.At != idx || fired[i] {
+				continue
+			}
+			fired[i] = true
+			prev := inside
+			inside = fmt.Sprintf("%s#%d", kind, idx)
+			if a.Go {
+				done := make(chan struct{})
+				go func() { defer close(done); deliver(a.Kind) }()
+				<-done
+			} else {
+				deliver(a.Kind)
+			}
+			inside = prev
+		}
+	})
+	for _, k := range []string{"primary", "other", "primary", "cdn", "primary"} {
+		deliver(k)
+	}
+	st.setHook(nil)
+	c.Eval(len(notes))
+
+	st.mu.Lock()
+	writes := append([][]byte(nil), st.writes...)
+	st.mu.Unlock()
+	if restored {
+		writes = writes[1:] // the harness's own seed
+	}
+	w := map[string]any{"pfs": pfs, "restored": restored, "schedule": acts, "history": notes}
+	if len(errs) > 0 {
+		w["errors"] = errs
+		c.Violate("scheduled|notification-handler-error", w)
+		return
+	}
+	nfired := 0
+	for i := range acts {
+		if fired[i] {
+			nfired++
+		}
+	}
+	for i, b := range writes {
+		v, err := decodeStored(b)
+		w["write"], w["stored"] = i, string(b)
+		if err != nil {
+			c.Violate("scheduled|stored-session-undecodable", w)
+			return
+		}
+		ok := false
+		why := "matches-no-notification"
+		allZero := len(bytes.Trim(v.Data.AuthKey, "\x00")) == 0
+		for _, n := range notes {
+			same := n.DC == v.Data.DC && bytes.Equal(v.Data.AuthKey, n.eff.Value[:]) && bytes.Equal(v.Data.AuthKeyID, n.eff.ID[:]) && v.Data.Salt == n.Salt
+			switch {
+			case same && n.AsPrimary && !n.matched:
+				n.matched, ok = true, true
+			case same && n.AsPrimary:
+				// Stored once more: still a triple that DC confirmed; the statement does not forbid it.
+				ok = true
+			case same:
+				why = n.Kind + "-notification-stored"
+			case !n.temp.Zero() && bytes.Equal(v.Data.AuthKey, n.temp.Value[:]):
+				why = "pfs-temporary-key"
+			}
+			if ok {
+				break
+			}
+		}
+		if !ok {
+			if allZero {
+				why = "zero-key"
+			}
+			// The persisted (DC, key, key id, salt) is not the triple any connection to that DC was confirmed with.
+			c.Violate("scheduled|stored-triple-not-from-a-primary-notification-of-that-dc|"+why, w)
+			return
+		}
+	}
+	delete(w, "write")
+	delete(w, "stored")
+	nestedPrimary := false
+	for i, a := range acts {
+		nestedPrimary = nestedPrimary || (fired[i] && a.Kind == "primary")
+	}
+	for _, n := range notes {
+		// With two primary notifications overlapping, which one ends up stored is not demanded.
+		if n.AsPrimary && !n.matched && !nestedPrimary {
+			c.Violate("scheduled|primary-notification-not-stored", w)
+			return
+		}
+	}
+	for i, a := range acts {
+		if fired[i] && !(a.Kind == "conn-dead" && hookMissing) {
+			c.Distinct(fmt.Sprintf("scheduled/%s/%s@%d/go=%v/pfs=%v/restored=%v", label, a.Kind, a.At, a.Go, pfs, restored))
+		}
+	}
+	if nfired > 0 && label == "grid" && acts[0].At == 0 && !acts[0].Go && !restored {
+		c.Sample("scheduled-"+acts[0].Kind, w)
+	}
+	return
+}
+
+func c30Scheduled(c *mon.Ctx) {
+	kinds := []string{"migrate", "conn-dead", "other", "cdn", "primary"}
+	grid, hookMissing := 0, false
+	// Systematic: one action x every storage call of the main sequence (3 primary notifications = load,store x3)
+	// x inline / second goroutine x PFS x restored.
+	for _, k := range kinds {
+		for at := 0; at < 6; at++ {
+			for _, viaGo := range []bool{false, true} {
+				for _, pfs := range []bool{false, true} {
+					for _, restored := range []bool{false, true} {
+						r := c.RandN("c30-sched-grid", grid)
+						grid++
+						if c30RunScheduled(c, r, pfs, restored, []schedAction{{Kind: k, At: at, Go: viaGo}}, "grid") {
+							hookMissing = true
+						}
+					}
+				}
+			}
+		}
+	}
+	// Random schedules: several actions, also nested inside each other's storage calls.
+	n := c.N(1500, 60000)
+	for h := 0; h < n; h++ {
+		r := c.RandN("c30-sched-rand", h)
+		var acts []schedAction
+		for i, m := 0, 1+r.IntN(4); i < m; i++ {
+			acts = append(acts, schedAction{Kind: kinds[r.IntN(len(kinds))], At: r.IntN(10), Go: r.IntN(2) == 0})
+		}
+		if c30RunScheduled(c, r, r.IntN(2) == 0, r.IntN(3) == 0, acts, "random") {
+			hookMissing = true
+		}
+	}
+	c.Set("scheduled_histories", grid+n)
+	if hookMissing {
+		c.Set("scheduled_conn_dead_action", "skipped: hook H7b (VerifPrimaryConnDead) not present in this tree")
+	}
 }
 
 type loadCase struct {
@@ -811,7 +1081,7 @@ func runC30(c *mon.Ctx) {
 	for _, arm := range []struct {
 		name string
 		f    func(*mon.Ctx)
-	}{{"direct", c30Direct}, {"concurrent", c30Concurrent}, {"load", c30Load}, {"e2e", c30E2E}} {
+	}{{"direct", c30Direct}, {"scheduled", c30Scheduled}, {"concurrent", c30Concurrent}, {"load", c30Load}, {"e2e", c30E2E}} {
 		t0 := time.Now()
 		arm.f(c)
 		walls[arm.name] = time.Since(t0).Seconds()
